@@ -74,3 +74,28 @@ claim("C05",
   "Runtime monitoring: Add/Remove/Has and singleton AddSet/RemoveSet calls are recorded with invocation/response stamps and checked per value against an atomic-set model (successful Adds and Removes alternate, starting from the prefix state, consistent with real time; Has agrees); multi-element AddSet/RemoveSet counts enter the conservation law initial + successful Adds + AddSet counts - successful Removes - RemoveSet counts == final Len == |final Slice|; per-value balance and Len bounds are checked; final Has/Slice/Len agree. Modes tierb (serialized scheduler over the sync2.Map hooks), lin (free-running, plain and -race), race (no recorder, race detector).",
   "Trusted: Go toolchain/runtime/race detector, porcupine v1.3.0. Len during concurrency is only bounded, as the property allows.",
   "DESIGN.md section 4, C05")
+claim("C09",
+  "occupancy-invariant monitors maintained by the harness per key + the serialized scheduler's blocked/enabled view (blocked-on-free-key, Try-blocks, Try-result-vs-occupancy, deadlock) + lost-update counter under the Go race detector on free-running rounds",
+  "Runtime monitoring: tierb - 2..4 workers run short programs (LockKey/TryLockKey/RLockKey/TryRLockKey, at most one key held at a time, hold-and-yield) over 1..3 keys under a serialized PRNG scheduler that switches at the hook sites of sync2.Map and before the blocking Lock/RLock; the harness asserts writers<=1 and writers==1 => readers==0 at every entry, that a worker is never blocked on a key that is free and uncontended, that Try* never reaches a blocking acquisition and never fails on a free uncontended key, and that no schedule deadlocks. free - real goroutines released by a barrier onto never-seen keys, steady-state mixes and a cross-key hold-and-wait protocol, with atomic occupancy asserts and a plain per-key counter (lost update; race report under -race).",
+  "Trusted: Go toolchain/runtime/race detector. RWMutex writer-preference queueing inside sync.RWMutex is invisible to the serialized mode (exercised only statistically in free mode). ClearKey only at quiescent points, as the property says.",
+  "DESIGN.md section 4, C09")
+claim("C10",
+  "recorded-event-log checkers (exactly-once, order, delivery-xor-timeout, nothing after removal, error contract) over free-running scenarios in isolated worker processes; process exit status for panics; Go race detector",
+  "Runtime monitoring: stable scenarios (0..4 subscribers, buffers 0..3, six publish variants, timeout on/off, prompt/delayed/stalled receivers, 1..3 publishers): for Wait/Sync variants UnsubAll is called the moment the publish calls return and every subscriber must have every event exactly once (Sync: in publication order); async variants are judged after acknowledged quiescence (bounded-progress restatement of 'eventually', loss detected when no send goroutine is left, channels are empty and the count is short); with a timeout each (event,subscriber) pair ends in exactly one delivery or OnPubTimeout call, none after a Wait/Sync call returned. Churn scenarios add concurrent Sub/SubBuf/Unsub/UnsubAll (error contract, exactly the given channel closed, stable subscribers unaffected) and WithOnly. A panic in a library goroutine kills the worker process and is attributed to the journaled case.",
+  "Trusted: Go toolchain/runtime/race detector. Unbounded 'eventually' is restated as bounded progress with a generous watchdog whose firing is inconclusive. Two KNOWN FINDINGS (send on closed channel under concurrent Unsub, KNOWN_FINDINGS.txt) are exercised in separate small modes.",
+  "DESIGN.md section 4, C10")
+claim("C17",
+  "invariant monitor over free-running rounds: per-function invocation counters, returned-tuple comparison, plain completion flag read right after Do returns; Go race detector",
+  "Runtime monitoring: per round a fresh Once1/Once2/Once3, 2..32 goroutines released by a barrier plus late callers, each passing its own function; exactly one invocation in total, every Do returns that invocation's tuple, and every caller sees the action's last plain write immediately after Do returns (assert in the plain build, race report in the -race build).",
+  "Trusted: Go toolchain/runtime/race detector.",
+  "DESIGN.md section 4, C17")
+claim("C18",
+  "recorded-history linearizability checking (porcupine, single-register model over unique values, three value representations incl. multi-word) for AtomicValue; ownership-flag monitor on pooled tokens for Pool; Go race detector on unrecorded rounds",
+  "Runtime monitoring: reg - Load/Store/Swap/CompareAndSwap histories of 2..8 goroutines are checked against one atomic register (zero value before the first Store; CAS before the first Store may go either way, as the property is silent there); torn multi-word values are detected by a redundant field. pool - tokens carry an atomic ownership flag (a Get that returns a token somebody still holds fails a CAS), a minted flag (nothing invented) and plain data written by the holder (race report under -race); rounds with and without New and with forced GCs. race - unrecorded rounds under the race detector decide 'free of data races'.",
+  "Trusted: Go toolchain/runtime/race detector, porcupine v1.3.0.",
+  "DESIGN.md section 4, C18")
+claim("C19",
+  "conservation checker over unique values for the timed/context helpers in free-running scenarios (valid whichever side wins a race); exhaustive sequential sweep for RecvQueued/RecvQueuedFull",
+  "Runtime monitoring: queued - every capacity 0..5 x fill 0..cap x open/closed x limit 0..cap+2 for RecvQueued and RecvQueuedFull on bidirectional and receive-only channels: exactly the first min(fill,limit) queued values in FIFO order, the rest still queued, nothing invented on a closed channel, never blocks (deterministic-hang rule). timed - SendTimeout/SendContext senders against a plain receiver, RecvTimeout/RecvContext receivers against a plain producer (optionally closing), timeouts 50us..2ms, peers arriving before/around/after the deadline: values reported sent == values that arrived (received or left in the channel), values reported not sent arrive nowhere, values returned == values taken, (zero,false) otherwise, no duplicates; non-positive timeouts must wait for a late peer.",
+  "Trusted: Go toolchain/runtime/race detector. An unbuffered channel with a blocked sender is not used for RecvQueued (whether that value is 'queued' is not stated).",
+  "DESIGN.md section 4, C19")
